@@ -53,7 +53,9 @@ AnalyzeWhys(r) ==
           \cup (IF ~r.sorted THEN {"C02:reported changes are not sorted"} ELSE {})
           \cup (IF dflt /\ prevUpd /\ (got # {} \/ tg # {})
                 THEN {"C07:something is still reported as changed right after checkpoint update --pending"} ELSE {})
-          \cup (IF got = want /\ ~(lo \subseteq tg /\ tg \subseteq hi)
+          \* judged against the TRUE change set: if a changed path is not reported (a C02 failure) and its targets therefore
+          \* do not reappear, the re-flag law of C07 is broken as well
+          \cup (IF ~(lo \subseteq tg /\ tg \subseteq hi)
                 THEN {"C07:changed targets are not exactly those affected by the changed paths"} ELSE {})
 
 RunWhys(r) ==
